@@ -27,6 +27,8 @@ import RtoscModel.Proofs.PathSearch
 import RtoscModel.Proofs.PathHash
 import RtoscModel.Proofs.PathDir
 import RtoscModel.Path.Enum
+import RtoscModel.Proofs.PathEnumExt
+import RtoscModel.Proofs.PathEnumCanon
 namespace Rtosc.Path
 open Rtosc
 
@@ -88,18 +90,94 @@ theorem apropos_of_walked (ps : List PortT) (hok : TreeOK ps) (a : Bytes) (ix : 
 /-! ### Enumerated rows (`name#N`)
 
   `apropos_of_walked` above is about trees of literal names (`TreeOK` contains `LitName`).
-  For trees that also have enumerated rows the statement is `apropos_of_walked_enum_statement`;
-  it is not proved for whole trees.  What is proved is the step of the lookup at one
-  enumerated row (`apropos_of_walked_enum_partial`): the `#` branch of `rtosc_match_path`
-  accepts exactly the indices below `N`, and hands the rest of the address to the
-  sub-table.  The model with its `#` branch is compared with the compiled code on generated
-  trees with enumerated rows, and the oracle checks every walked address of such trees. -/
+  For trees that also have enumerated rows the first reading of the clause was
+  `apropos_of_walked_enum_statement` ("no expanded name of a row is a prefix of an expanded
+  name of another row", `TreeOKE`).  That statement is FALSE of the model and of the code
+  (`apropos_of_walked_enum_counterexample`): `rtosc_match_number` reads the index in an address
+  with `atoi`, so the row `a#5x` also answers for `a00x`, the address of a literal sibling.
+  The clause is proved (`apropos_of_walked_enum`) under the additional hypothesis `TreeNumOK`
+  (RtoscModel/Path/EnumNum.lean): "a sibling's name" is read as "a name the sibling's pattern
+  accepts" (index written with any number of leading zeros), every enumerated row stands for
+  at least one port (`N ≥ 1`), and trying a sibling's pattern on a name does not overflow `atoi`.
+  Each of the three parts is needed (`…_counterexample`, `…_zero_count_counterexample`,
+  `…_overflow_counterexample`). -/
 
 /-- the lookup clause for trees with literal and enumerated names (`walkE`, `TreeOKE`:
-    RtoscModel/Path/Enum.lean) — stated, not proved -/
+    RtoscModel/Path/Enum.lean) under the hypothesis `TreeOKE` alone — false, see
+    `apropos_of_walked_enum_statement_false`; proved with `TreeNumOK` added
+    (`apropos_of_walked_enum`) -/
 def apropos_of_walked_enum_statement : Prop :=
   ∀ (ps : List PortT), TreeOKE ps → ∀ (a : Bytes) (ix : List Nat), (a, ix) ∈ walkE ps →
     apropos ps a = .port ix ∧ apropos ps (SLASH :: a) = .port ix
+
+/-- **apropos_of_walked_enum** (lookup clause, trees with literal and enumerated names
+    `name#N`, `name#N/`, `pre#N post`): provided no sibling's name is a prefix of another's —
+    `TreeOKE`: names of the documented form, no expanded name of a row is a prefix of an expanded
+    name of another row; `TreeNumOK`: the same for every name the other row's pattern accepts
+    (leading zeros), `N ≥ 1`, no `atoi` overflow — looking up any address that the port-tree
+    walk reported (`walkE`: every row expanded to its `N` elements, at every level) returns
+    the port it was reported with, with or without the leading `/`.  By induction over the
+    tree (Proofs/PathEnumExt.lean, `apropos_addrE`). -/
+theorem apropos_of_walked_enum (ps : List PortT) (hok : TreeOKE ps) (hnum : TreeNumOK ps)
+    (a : Bytes) (ix : List Nat) (hw : (a, ix) ∈ walkE ps) :
+    apropos ps a = .port ix ∧ apropos ps (SLASH :: a) = .port ix :=
+  apropos_walkedE ps hok hnum a ix hw
+
+/-- **apropos_of_walked_enum_canon**: the same clause with hypotheses that can be read off the
+    names.  `CanonList` (RtoscModel/Path/EnumNum.lean; `canonListB` is the same as a finite
+    check): every enumerated row has `N ≥ 1`, no `#` follows a digit, and every literal digit
+    run in a name is a number below 2^31 printed without leading zeros.  Then
+    `rtosc_match_number` meets printed numbers only, and "no expanded name of a row is a prefix of
+    an expanded name of another row" (`TreeOKE`) is enough (`treeNumOK_of_canon`). -/
+theorem apropos_of_walked_enum_canon (ps : List PortT) (hok : TreeOKE ps) (hc : CanonList ps)
+    (a : Bytes) (ix : List Nat) (hw : (a, ix) ∈ walkE ps) :
+    apropos ps a = .port ix ∧ apropos ps (SLASH :: a) = .port ix :=
+  apropos_of_walked_enum ps hok (treeNumOK_of_canon ps hok hc) a ix hw
+
+/-- the table `a#5x`, `a00x` -/
+def cexLeadingZero : List PortT :=
+  [.mk [97, 35, 53, 120] none false [], .mk [97, 48, 48, 120] none false []]
+
+/-- **apropos_of_walked_enum_counterexample** (finding C18-K: leading zeros): in the table
+    `a#5x`, `a00x` no expanded name (`a0x … a4x`, `a00x`) is a prefix of another, the walk
+    reports `a00x` with row 1, and the lookup of `a00x` returns row 0: `rtosc_match_number`
+    reads `00` as index 0 of `a#5x`.  (The compiled code returns row 0 as well.) -/
+theorem apropos_of_walked_enum_counterexample :
+    TreeOKE cexLeadingZero ∧ (([97, 48, 48, 120], [1]) : Bytes × List Nat) ∈ walkE cexLeadingZero ∧
+      apropos cexLeadingZero [97, 48, 48, 120] = .port [0] :=
+  ⟨treeOKE_leaves2 _ _ (by decide) (by decide) rfl rfl (by decide), by decide, by decide⟩
+
+/-- the lookup clause under `TreeOKE` alone does not hold -/
+theorem apropos_of_walked_enum_statement_false : ¬ apropos_of_walked_enum_statement := by
+  intro h
+  obtain ⟨h1, h2, h3⟩ := apropos_of_walked_enum_counterexample
+  have := (h _ h1 _ _ h2).1
+  rw [h3] at this
+  exact absurd this (by decide)
+
+/-- the table `x#0`, `x` -/
+def cexZeroCount : List PortT := [.mk [120, 35, 48] none false [], .mk [120] none false []]
+
+/-- why `N ≥ 1` is asked: the row `x#0` stands for no port, so it has no expanded name that
+    could be a prefix of anything, yet `strstr(port.name, path) == port.name` finds it for the
+    address `x` of its sibling. -/
+theorem apropos_of_walked_enum_zero_count_counterexample :
+    TreeOKE cexZeroCount ∧ (([120], [1]) : Bytes × List Nat) ∈ walkE cexZeroCount ∧
+      apropos cexZeroCount [120] = .port [0] :=
+  ⟨treeOKE_leaves2 _ _ (by decide) (by decide) rfl rfl (by decide), by decide, by decide⟩
+
+/-- the table `a#2`, `a9999999999` -/
+def cexOverflow : List PortT :=
+  [.mk [97, 35, 50] none false [], .mk [97, 57, 57, 57, 57, 57, 57, 57, 57, 57, 57] none false []]
+
+/-- why `IndexFits` is asked: trying the pattern `a#2` on the sibling's address `a9999999999`
+    makes `atoi` read a number above 2^31 (undefined behaviour in C; the model answers
+    `unsupported`). -/
+theorem apropos_of_walked_enum_overflow_counterexample :
+    TreeOKE cexOverflow ∧
+      (([97, 57, 57, 57, 57, 57, 57, 57, 57, 57, 57], [1]) : Bytes × List Nat) ∈ walkE cexOverflow ∧
+      apropos cexOverflow [97, 57, 57, 57, 57, 57, 57, 57, 57, 57, 57] = .unsupported :=
+  ⟨treeOKE_leaves2 _ _ (by decide) (by decide) rfl rfl (by decide), by decide, by decide⟩
 
 /-- **apropos_of_walked_enum_partial**: one enumerated row `pre#N post` (`dn` = the digits of
     `N`, `dk` = the digits of an index `k`).  (1) As a sub-tree row `pre#N post/[:args]` it
@@ -381,6 +459,37 @@ example : walkE exTreeE =
 example : ∀ e ∈ walkE exTreeE, apropos exTreeE e.1 = .port e.2 ∧ apropos exTreeE (SLASH :: e.1) = .port e.2 := by
   decide
 example : apropos exTreeE [112, 51, 47, 120] = .null := by decide
+
+/-- the hypotheses of `apropos_of_walked_enum` hold for the example tree (and its conclusion is
+    the `decide`d statement above); they fail for the counterexample table -/
+example : TreeOKE exTreeE :=
+  ⟨tableOKE_two _ _ (by decide) (by decide) (by decide),
+   ⟨tableOKE_two _ _ (by decide) (by decide) (by decide), subTablesOKE_leaves _ (by decide)⟩,
+   ⟨tableOKE_nil, trivial⟩, trivial⟩
+
+example : TreeNumOK exTreeE :=
+  ⟨tableNumOK_two_heads _ _ (by decide) (by decide) (by decide) (by decide) (by decide) (by decide),
+   ⟨tableNumOK_two_heads _ _ (by decide) (by decide) (by decide) (by decide) (by decide) (by decide),
+    subTablesNumOK_leaves _ (by decide)⟩,
+   ⟨tableNumOK_nil, trivial⟩, trivial⟩
+
+/-- `v#12b`, `v12`: rows with a common beginning and literal digits meet the syntactic
+    hypotheses of `apropos_of_walked_enum_canon`; the counterexample table does not (`a00x`) -/
+def exTreeDigits : List PortT :=
+  [.mk [118, 35, 49, 50, 98] none false [], .mk [118, 49, 50] none false []]
+
+example : TreeOKE exTreeDigits := treeOKE_leaves2 _ _ (by decide) (by decide) rfl rfl (by decide)
+example : CanonList exTreeDigits := canonList_of_B _ (by decide)
+example : CanonList exTreeE := canonList_of_B _ (by decide)
+example : (([118, 49, 49, 98], [0]) : Bytes × List Nat) ∈ walkE exTreeDigits := by decide
+example : canonListB cexLeadingZero = false := by decide
+
+example : ¬ TreeNumOK cexLeadingZero := by
+  intro h
+  obtain ⟨h1, h2, h3⟩ := apropos_of_walked_enum_counterexample
+  have := (apropos_of_walked_enum _ h1 h _ _ h2).1
+  rw [h3] at this
+  exact absurd this (by decide)
 
 /-- the hypotheses of `apropos_of_walked_enum_partial` for `p#12/` against `p11/…` -/
 example : Digits [49, 50] ∧ Digits [49, 49] ∧ atoi [49, 49] < atoi [49, 50] ∧ (∀ c ∈ [(112 : UInt8)], PlainChar c) := by
